@@ -437,13 +437,15 @@ func (ex *Exec) evalCall(e *Expr, env *Env) Val {
 			return r
 		case "loopentry":
 			// value of an expression when the innermost enclosing cut loop was entered
-			if env.fr != nil {
-				for _, s := range env.fr.loopOld {
-					var r Val
-					n := *env
-					ex.inSnapshot(s, func() { r = ex.eval1(args[0], &n) })
-					return r
-				}
+			if env.loopOld != nil {
+				var r Val
+				n := *env
+				ex.inSnapshot(env.loopOld, func() { r = ex.eval1(args[0], &n) })
+				return r
+			}
+			if env.inLoop {
+				// evaluated at loop entry itself
+				return ex.eval1(args[0], env)
 			}
 			unsup("contract: loopentry outside a loop")
 		case "ite":
